@@ -264,7 +264,9 @@ def check_case(case, res=None):
             lex = sql[s : e_ + 1]
             name = n.name
             # a lexeme with a backslash may spell the value through an escape sequence ('a\b' -> a<BS> in Redshift): no text comparison then
-            if "\\" not in lex and name.lower() not in lex.lower() and name.replace('"', '""').lower() not in lex.lower():
+            # (a delimiter inside the value is written doubled: "a""b", 'it''s', `a``b`, [a]]b])
+            spellings = {name, name.replace('"', '""'), name.replace("'", "''"), name.replace("`", "``"), name.replace("]", "]]")}
+            if "\\" not in lex and not any(sp.lower() in lex.lower() for sp in spellings):
                 fails.append((f"node-position-wrong-lexeme|{d or 'base'}", f"{sql!r}: identifier {name!r} meta selects {lex!r}"))
                 break
             line, col = ref_pos(sql, e_)
